@@ -187,6 +187,9 @@ DEFAULT_CFG = {
     # None, or {'bases': ('tick','hook'), 'ks': (0, 1, ...), 'changes': ('label', 'review', 'target', 'push', 'ext')}:
     # events "a world change lands, and its webhook is delivered, while the k-th GitHub request of a CI pass is in flight"
     'windows': None,
+    # None, or {'ks': (0, 1, ...), 'max': n}: events "the k-th GitHub request of a CI pass fails (502)", at most
+    # `max` such faults per history
+    'faults': None,
 }
 
 
@@ -214,6 +217,10 @@ class World:
         # (notified-not-refreshed) and from "the CI looked and still got it wrong" (ci-logic: the fact is not dirty).
         self.dirty = {}
         # per-transition scratch for the mid-pass window
+        self.faults = 0  # GitHub request failures injected so far in this history
+        self.lost_posts = []  # (sha, context) of status POSTs that failed and were not re-posted since
+        self.fault = None  # k: the k-th GitHub request of the running CI pass fails (per-transition scratch)
+        self.fault_fired = False
         self.window = None  # (k, world change) armed for the k-th GitHub request of the running CI pass
         self.req = 0  # GitHub requests answered so far in the running CI pass
         self.changed_in_pass = []  # facts changed by a window inside the running pass
@@ -241,12 +248,12 @@ class World:
             {n: dict(p, labels=list(p['labels'])) for n, p in self.prs.items()},
             {sha: dict(d) for sha, d in self.statuses.items()},
             [dict(b) for b in self.batches], list(self.hooks), list(self.callbacks), list(self.merges),
-            dict(self.dirty),
+            dict(self.dirty), list(self.lost_posts),
         )
 
     def restore(self, snap):
         (self.target, self.ext_moves, self.last_target_change, self.prs, self.statuses,
-         self.batches, self.hooks, self.callbacks, self.merges, self.dirty) = snap
+         self.batches, self.hooks, self.callbacks, self.merges, self.dirty, self.lost_posts) = snap
 
     def canon(self):
         open_heads = set()
@@ -263,6 +270,7 @@ class World:
             tuple((b['id'], tuple(sorted((k, v) for k, v in b['attributes'].items() if k != 'token')), b['state'])
                   for b in self.batches),
             tuple(sorted((f, v) for f, v in self.dirty.items() if self._fact_live(f, open_heads))),
+            self.faults, tuple(x for x in self.lost_posts if x[0] in open_heads),
             tuple(self.hooks), len(self.callbacks),  # every callback delivery has the same effect on the CI
             tuple(sorted(self.db['invalidated_batches'])), tuple(sorted(self.db['authorized_shas'])),
             (len(self.merges), (self.merges[-1]['pr'], self.merges[-1]['target_before']) if self.merges else None),
@@ -287,6 +295,12 @@ class World:
     def mark_notified(self):
         for f in self.dirty:
             self.dirty[f] = True
+
+    def mark_refresh_failed(self):
+        # the CI had been told (True) and the re-read it started was aborted by a GitHub failure
+        for f, v in self.dirty.items():
+            if v is True:
+                self.dirty[f] = 'F'
 
     # -- helpers
     def count(self, k, n=1):
@@ -353,9 +367,13 @@ class World:
             # check_run handler is registered) and nothing made it re-poll.
             if not stale or fact not in self.dirty:
                 return 'ci-logic'
+            if hook in self.hooks:
+                return 'webhook-in-flight'  # the webhook announcing this very change has not reached the CI yet
+            if self.dirty[fact] == 'F':
+                return 'refresh-failed'  # told, started to re-read, GitHub answered 5xx, merged later without re-reading
             if self.dirty[fact]:
                 return 'notified-not-refreshed'
-            return 'webhook-in-flight' if hook in self.hooks else 'not-notified'
+            return 'not-notified'
 
         def excused(fact):
             # the fact changed while this very pass was in flight, after the pass had read it: no client of GitHub's
@@ -379,6 +397,14 @@ class World:
                 f'PR {n} merged while labelled {self.dnm_label!r} (CI cache: labels={sorted(getattr(cpr, "labels", ()))})',
             ))
         bad = {c: s for c, s in self.statuses.get(head, {}).items() if s != 'success'}
+        lost = {c: s for c, s in bad.items() if (head, c) in self.lost_posts}
+        if lost:
+            # the CI's own status POST failed (5xx); the CI nevertheless recorded the status as posted
+            found.append((
+                'check-not-success/status-post-lost',
+                f'PR {n} merged while GitHub shows {lost} on its head {head}: the CI\'s status POST had failed',
+            ))
+            bad = {c: s for c, s in bad.items() if c not in lost}
         if bad and not excused(f'status:{head}'):
             cached = {k: v.value for k, v in getattr(cpr, 'last_known_github_status', {}).items()} if cpr is not None else {}
             # out of date only if a status changed after the CI last read the rollup of this head; a cache that
@@ -443,18 +469,35 @@ class FakeGH:
 
         return gidgethub.BadRequest(http.HTTPStatus(code), msg)
 
-    async def _request_point(self):
+    async def _request_point(self, kind, lost=None):
         """Called when a GitHub request of the running CI pass is received, before it is answered: k requests have
         been answered so far.  An armed window (k, change) fires here: the world changes and the webhook announcing
         it reaches the CI's real handler while the pass is suspended on this request."""
         w = self.w
         if w.window is not None and w.window[0] == w.req:
             await _CUR._fire_window()
+        if w.fault is not None and w.fault == w.req:
+            # transient GitHub failure of this one request (gidgethub raises GitHubBroken for a 5xx answer)
+            import http
+
+            import gidgethub
+
+            w.fault = None
+            w.fault_fired = True
+            w.faults += 1
+            w.req += 1
+            w.count(f'github_faults_on_{kind}')
+            if kind == 'read':
+                w.mark_refresh_failed()
+            elif kind == 'status':
+                if lost not in w.lost_posts:
+                    w.lost_posts = sorted(w.lost_posts + [lost])
+            raise gidgethub.GitHubBroken(http.HTTPStatus(502))
         w.req += 1
 
     async def getitem(self, url):
         if url == f'/repos/{REPO_SS}/git/refs/heads/{BRANCH}':
-            await self._request_point()
+            await self._request_point('read')
             self.w.count('gh_polls')
             self.w.mark_read('target')
             return {'ref': f'refs/heads/{BRANCH}', 'object': {'sha': self.w.target, 'type': 'commit'}}
@@ -463,7 +506,7 @@ class FakeGH:
     async def getiter(self, url):
         if url != f'/repos/{REPO_SS}/pulls?state=open&base={BRANCH}':
             raise HarnessError(f'fake GitHub: unexpected GET (iter) {url}')
-        await self._request_point()
+        await self._request_point('read')
         page = [self.w.pr_json(n) for n in sorted(self.w.prs) if self.w.prs[n]['state'] == 'open']
         self.w.mark_read(*[f'{f}{n}' for n in self.w.prs for f in ('label', 'head')])
         for x in page:
@@ -471,11 +514,14 @@ class FakeGH:
 
     async def post(self, url, *, data):
         w = self.w
-        await self._request_point()
         if url == '/graphql':
+            await self._request_point('read')
             return self._graphql(data['query'])
         m = re.fullmatch(rf'/repos/{REPO_SS}/statuses/(\w+)', url)
         if m:
+            await self._request_point('status', (m.group(1), data.get('context')))
+            if (m.group(1), data.get('context')) in w.lost_posts:
+                w.lost_posts = [x for x in w.lost_posts if x != (m.group(1), data.get('context'))]
             if set(data) != {'state', 'target_url', 'description', 'context'} or data['state'] not in STATUS_CODES.values():
                 raise HarnessError(f'fake GitHub: unexpected status payload {data}')
             w.set_status(m.group(1), data['context'], data['state'])
@@ -483,6 +529,7 @@ class FakeGH:
             return {'state': data['state']}
         m = re.fullmatch(rf'/repos/{REPO_SS}/issues/(\d+)/assignees', url)
         if m:
+            await self._request_point('other')
             return {}
         raise HarnessError(f'fake GitHub: unexpected POST {url}')
 
@@ -531,7 +578,7 @@ class FakeGH:
         m = re.fullmatch(rf'/repos/{REPO_SS}/pulls/(\d+)/merge', url)
         if not m:
             raise HarnessError(f'fake GitHub: unexpected PUT {url}')
-        await self._request_point()
+        await self._request_point('merge')  # a failed PUT merges nothing
         n = int(m.group(1))
         p = w.prs.get(n)
         w.count('merge_puts')
@@ -832,6 +879,11 @@ class Sys:
                 for k in win['ks']:
                     for ch in changes:
                         ev.append(('win', k, base, ch))
+        flt = w.cfg['faults']
+        if flt and w.faults < flt['max']:
+            for base in steps:
+                for k in flt['ks']:
+                    ev.append(('fault', k, base))
         return ev
 
     def app(self):
@@ -861,6 +913,13 @@ class Sys:
             if '/ci/ci/' not in where.filename:
                 raise HarnessError(f'assertion outside the CI code: {where.filename}:{where.lineno} {e!r}') from e
             self.world.count(f'ci_step_raised_AssertionError_in_{where.name}')
+        except Exception as e:  # noqa: BLE001
+            import gidgethub
+
+            # the injected 5xx escaping _update: update_loop logs it and sleeps, aiohttp answers 500; state is kept
+            if not (isinstance(e, gidgethub.GitHubBroken) and self.world.fault_fired):
+                raise
+            self.world.count('ci_pass_aborted_by_github_failure')
         finally:
             # `async for b in list_batches(...): break` leaves generator finalisers (aclose tasks) behind
             for _ in range(3):
@@ -887,8 +946,18 @@ class Sys:
         """Execute one event.  Returns (violations, counters, merged_pr_numbers)."""
         w = self.world
         w.violations, w.counters, w.merged_now, w.checkouts = [], {}, [], []
-        w.window, w.req, w.changed_in_pass = None, 0, []
+        w.window, w.req, w.changed_in_pass, w.fault, w.fault_fired = None, 0, [], None, False
         ev = _tup(ev)
+        if ev[0] == 'fault':
+            _, k, base = ev
+            if base not in self.ci_steps():
+                raise HarnessError(f'event {ev} is not enabled here')
+            w.fault = k
+            self._do(base)
+            if w.fault is not None:
+                w.count('faults_not_reached')  # the pass made fewer than k+1 GitHub requests: same as the plain pass
+                w.fault = None
+            return list(w.violations), dict(w.counters), list(w.merged_now)
         if ev[0] == 'win':
             _, k, base, change = ev
             if base not in self.ci_steps() or base[0] == 'callback' or change not in self.world_changes(True):
@@ -1095,6 +1164,8 @@ def enc(ev):
         return 't'
     if k == 'win':
         return f'w{ev[1]}:{enc(ev[2])}:{enc(ev[3])}'
+    if k == 'fault':
+        return f'f{ev[1]}:{enc(ev[2])}'
     raise HarnessError(f'cannot encode {ev}')
 
 
@@ -1107,6 +1178,9 @@ def dec(tok):
     if k == 'w':
         a, b, c = rest.split(':')
         return ('win', int(a), dec(b), dec(c))
+    if k == 'f':
+        a, b = rest.split(':')
+        return ('fault', int(a), dec(b))
     if k == 'p':
         return ('push', int(rest))
     if k == 'T':
